@@ -128,6 +128,11 @@ def variants():
     add("metadata array 1500 entries, one changed", metadata={"w": big_array(1500, change=700)})
     add("metadata array, entry differs in the 16th digit", metadata={"w": big_array(1500, eps=2.220446049250313e-16)})
     add("metadata small array", metadata={"w": big_array(3)})
+    # the same entries in other shapes (shape is part of the value)
+    add("metadata array 2x3", metadata={"w": NdArray([[1.0, 2.0, 3.0], [4.0, 5.0, 6.0]])})
+    add("metadata array 3x2, same entries", metadata={"w": NdArray([[1.0, 2.0], [3.0, 4.0], [5.0, 6.0]])})
+    add("metadata array (6,), same entries", metadata={"w": NdArray([1.0, 2.0, 3.0, 4.0, 5.0, 6.0])})
+    add("metadata array (6,1), same entries", metadata={"w": NdArray([[1.0], [2.0], [3.0], [4.0], [5.0], [6.0]])})
     add("metadata small array, one changed", metadata={"w": big_array(3, change=1)})
     add("extra domain map {m1: cell}", extra=[(1, "cell")])
     add("extra domain map {m1: exterior_facet}", extra=[(1, "exterior_facet")])
